@@ -3,7 +3,11 @@
    Streams are numbered in creation order.  [v_swap]: Regist installs with an atomic Swap (repair
    of D6) — sequentially the same as Load+Store; [v_unmap]: close removes the stream from the
    registry if it is still the registered one (repair of D5); [v_anycons]: the idle decision counts
-   consumers of every protocol (repair of D7). *)
+   consumers of every protocol (repair of D7).
+   [st_att_total] / [st_det_total] are ghost counters (successful attaches / detaches of a stream);
+   [released s] is the number of consumers whose Close must have been called by now: all that were
+   ever attached once the stream has ended, the detached ones while it is live.  [GUnregistAll] is
+   media.UnregistAll (server shutdown). *)
 From Coq Require Import ZArith List Bool.
 From V Require Import Bytes StrGo.
 Import ListNotations.
@@ -19,8 +23,13 @@ Record strm := {
   st_rtp : Z;             (* RTP consumers attached *)
   st_flv : Z;             (* FLV consumers attached *)
   st_retire : bool;       (* replaced while it had consumers: a retire task is pending *)
-  st_hls : bool           (* the stream has an HLS playlist (H.264 + AAC) *)
+  st_hls : bool;          (* the stream has an HLS playlist (H.264 + AAC) *)
+  st_att_total : Z;       (* ghost: attach operations on this stream that succeeded *)
+  st_det_total : Z        (* ghost: detach operations on this stream that succeeded *)
 }.
+
+(* the number of consumers of the stream whose Close must have been called *)
+Definition released (s : strm) : Z := if st_live s then st_det_total s else st_att_total s.
 
 Record rstate := {
   g_map : list (bytes * nat);   (* the registry, at most one entry per key *)
@@ -39,7 +48,8 @@ Definition mdelete (m : list (bytes * nat)) (k : bytes) : list (bytes * nat) :=
 Definition mstore (m : list (bytes * nat)) (k : bytes) (v : nat) : list (bytes * nat) :=
   mdelete m k ++ [(k, v)].
 
-Definition strm0 : strm := {| st_path := []; st_live := false; st_rtp := 0; st_flv := 0; st_retire := false; st_hls := false |}.
+Definition strm0 : strm := {| st_path := []; st_live := false; st_rtp := 0; st_flv := 0; st_retire := false; st_hls := false;
+                              st_att_total := 0; st_det_total := 0 |}.
 Definition sget (g : rstate) (i : nat) : strm := nth i (g_streams g) strm0.
 Fixpoint lset {A} (l : list A) (i : nat) (v : A) : list A :=
   match l, i with
@@ -57,7 +67,8 @@ Variable V : rvariant.
 Definition close_stream (g : rstate) (i : nat) : rstate :=
   let s := sget g i in
   if negb (st_live s) then g else
-  let s' := {| st_path := st_path s; st_live := false; st_rtp := 0; st_flv := 0; st_retire := false; st_hls := st_hls s |} in
+  let s' := {| st_path := st_path s; st_live := false; st_rtp := 0; st_flv := 0; st_retire := false; st_hls := st_hls s;
+               st_att_total := st_att_total s; st_det_total := st_det_total s |} in
   let g1 := sset g i s' in
   if v_unmap V then
     match mlookup (g_map g1) (st_path s) with
@@ -77,7 +88,8 @@ Inductive gop :=
 | GList
 | GAttach (i : nat) (flv : bool)
 | GDetach (i : nat) (flv : bool)
-| GIdle (i : nat) (hls_recent : bool).
+| GIdle (i : nat) (hls_recent : bool)
+| GUnregistAll.
 
 Inductive gout :=
 | RUnit
@@ -106,7 +118,8 @@ Definition gstep (g : rstate) (o : gop) : rstate * gout :=
   | GNew p hls =>
       ({| g_map := g_map g;
           g_streams := g_streams g ++ [{| st_path := canonical_path p; st_live := true; st_rtp := 0;
-                                          st_flv := 0; st_retire := false; st_hls := hls |}] |}, RUnit)
+                                          st_flv := 0; st_retire := false; st_hls := hls;
+                                          st_att_total := 0; st_det_total := 0 |}] |}, RUnit)
   | GRegist i =>
       if negb (i <? length (g_streams g))%nat then (g, RUnit) else
       let s := sget g i in
@@ -117,7 +130,8 @@ Definition gstep (g : rstate) (o : gop) : rstate * gout :=
           let old := sget g1 j in
           if consumers old <=? 0 then (close_stream g1 j, RUnit)
           else (sset g1 j {| st_path := st_path old; st_live := st_live old; st_rtp := st_rtp old;
-                             st_flv := st_flv old; st_retire := true; st_hls := st_hls old |}, RUnit)
+                             st_flv := st_flv old; st_retire := true; st_hls := st_hls old;
+                             st_att_total := st_att_total old; st_det_total := st_det_total old |}, RUnit)
       | None => ({| g_map := mstore (g_map g) (st_path s) i; g_streams := g_streams g |}, RUnit)
       end
   | GUnregist i =>
@@ -141,20 +155,26 @@ Definition gstep (g : rstate) (o : gop) : rstate * gout :=
       if negb (i <? length (g_streams g))%nat || negb (st_live s) then (g, RUnit) else
       (sset g i {| st_path := st_path s; st_live := true;
                    st_rtp := if flv then st_rtp s else st_rtp s + 1;
-                   st_flv := if flv then st_flv s + 1 else st_flv s; st_retire := st_retire s; st_hls := st_hls s |}, RUnit)
+                   st_flv := if flv then st_flv s + 1 else st_flv s; st_retire := st_retire s; st_hls := st_hls s;
+                   st_att_total := st_att_total s + 1; st_det_total := st_det_total s |}, RUnit)
   | GDetach i flv =>
       let s := sget g i in
       if negb (i <? length (g_streams g))%nat || negb (st_live s) then (g, RUnit) else
       if (if flv then st_flv s else st_rtp s) <=? 0 then (g, RUnit) else
       (sset g i {| st_path := st_path s; st_live := true;
                    st_rtp := if flv then st_rtp s else st_rtp s - 1;
-                   st_flv := if flv then st_flv s - 1 else st_flv s; st_retire := st_retire s; st_hls := st_hls s |}, RUnit)
+                   st_flv := if flv then st_flv s - 1 else st_flv s; st_retire := st_retire s; st_hls := st_hls s;
+                   st_att_total := st_att_total s; st_det_total := st_det_total s + 1 |}, RUnit)
   | GIdle i hls_recent =>
       (* one run of the zero-consumers close task *)
       let s := sget g i in
       if negb (i <? length (g_streams g))%nat then (g, RIdle false) else
       let idle := (if v_anycons V then consumers s else st_rtp s) <=? 0 in
       if idle && negb (hls_recent && st_hls s) then (close_stream g i, RIdle (st_live s)) else (g, RIdle false)
+  | GUnregistAll =>
+      (* media.UnregistAll: Range over the registry; each entry is deleted and its stream closed *)
+      (fold_left (fun g' e => close_stream {| g_map := mdelete (g_map g') (fst e); g_streams := g_streams g' |} (snd e))
+                 (g_map g) g, RUnit)
   end.
 
 Fixpoint grun (g : rstate) (ops : list gop) : rstate * list gout :=
@@ -181,7 +201,8 @@ Definition sp_set (g : sstate) (i : nat) (v : strm) : sstate :=
 Definition sp_kill (g : sstate) (i : nat) : sstate :=
   let s := sp_get g i in
   if negb (st_live s) then g else
-  sp_set g i {| st_path := st_path s; st_live := false; st_rtp := 0; st_flv := 0; st_retire := false; st_hls := st_hls s |}.
+  sp_set g i {| st_path := st_path s; st_live := false; st_rtp := 0; st_flv := 0; st_retire := false; st_hls := st_hls s;
+                st_att_total := st_att_total s; st_det_total := st_det_total s |}.
 Definition sp_live (g : sstate) (e : bytes * nat) : bool := st_live (sp_get g (snd e)).
 Definition sp_resolve (g : sstate) (k : bytes) : option nat :=
   match mlookup (sp_last g) k with
@@ -194,7 +215,8 @@ Definition sstep (g : sstate) (o : gop) : sstate * gout :=
   | GNew p hls =>
       ({| sp_last := sp_last g;
           sp_streams := sp_streams g ++ [{| st_path := canonical_path p; st_live := true; st_rtp := 0;
-                                            st_flv := 0; st_retire := false; st_hls := hls |}] |}, RUnit)
+                                            st_flv := 0; st_retire := false; st_hls := hls;
+                                          st_att_total := 0; st_det_total := 0 |}] |}, RUnit)
   | GRegist i =>
       if negb (i <? length (sp_streams g))%nat then (g, RUnit) else
       let s := sp_get g i in
@@ -205,7 +227,8 @@ Definition sstep (g : sstate) (o : gop) : sstate * gout :=
                   else if consumers (sp_get g j) <=? 0 then (sp_kill g1 j, RUnit)   (* retired at once *)
                   else (sp_set g1 j (let o := sp_get g j in
                           {| st_path := st_path o; st_live := st_live o; st_rtp := st_rtp o;
-                             st_flv := st_flv o; st_retire := true; st_hls := st_hls o |}), RUnit)
+                             st_flv := st_flv o; st_retire := true; st_hls := st_hls o;
+                             st_att_total := st_att_total o; st_det_total := st_det_total o |}), RUnit)
       | None => (g1, RUnit)
       end
   | GUnregist i | GClose i =>
@@ -221,19 +244,24 @@ Definition sstep (g : sstate) (o : gop) : sstate * gout :=
       if negb (i <? length (sp_streams g))%nat || negb (st_live s) then (g, RUnit) else
       (sp_set g i {| st_path := st_path s; st_live := true;
                      st_rtp := if flv then st_rtp s else st_rtp s + 1;
-                     st_flv := if flv then st_flv s + 1 else st_flv s; st_retire := st_retire s; st_hls := st_hls s |}, RUnit)
+                     st_flv := if flv then st_flv s + 1 else st_flv s; st_retire := st_retire s; st_hls := st_hls s;
+                   st_att_total := st_att_total s + 1; st_det_total := st_det_total s |}, RUnit)
   | GDetach i flv =>
       let s := sp_get g i in
       if negb (i <? length (sp_streams g))%nat || negb (st_live s) then (g, RUnit) else
       if (if flv then st_flv s else st_rtp s) <=? 0 then (g, RUnit) else
       (sp_set g i {| st_path := st_path s; st_live := true;
                      st_rtp := if flv then st_rtp s else st_rtp s - 1;
-                     st_flv := if flv then st_flv s - 1 else st_flv s; st_retire := st_retire s; st_hls := st_hls s |}, RUnit)
+                     st_flv := if flv then st_flv s - 1 else st_flv s; st_retire := st_retire s; st_hls := st_hls s;
+                   st_att_total := st_att_total s; st_det_total := st_det_total s + 1 |}, RUnit)
   | GIdle i hls_recent =>
       (* closed for idleness only with no consumer of any protocol and no recent HLS access *)
       let s := sp_get g i in
       if negb (i <? length (sp_streams g))%nat then (g, RIdle false) else
       if (consumers s <=? 0) && negb (hls_recent && st_hls s) then (sp_kill g i, RIdle (st_live s)) else (g, RIdle false)
+  | GUnregistAll =>
+      (* shutdown: every stream that currently resolves ends *)
+      (fold_left (fun g' e => sp_kill g' (snd e)) (filter (sp_live g) (sp_last g)) g, RUnit)
   end.
 
 Fixpoint srun (g : sstate) (ops : list gop) : list gout :=
@@ -242,6 +270,12 @@ Fixpoint srun (g : sstate) (ops : list gop) : list gout :=
   | o :: ops' => let '(g1, r) := sstep g o in r :: srun g1 ops'
   end.
 Definition sinit : sstate := {| sp_last := []; sp_streams := [] |}.
+(* the specification's state after a history *)
+Fixpoint sexec (g : sstate) (ops : list gop) : sstate :=
+  match ops with
+  | [] => g
+  | o :: ops' => sexec (fst (sstep g o)) ops'
+  end.
 
 (* well-formed histories: only a live stream is registered (a publisher registers the stream it
    has just created); tracked along the specification run *)
@@ -276,3 +310,32 @@ Fixpoint gouts_eqb (a b : list gout) : bool :=
 
 (* the oracle applied to the implementation: its answers are the specification's *)
 Definition ok_hist_C05 (ops : list gop) (outs : list gout) : bool := gouts_eqb outs (srun sinit ops).
+
+(* ---------- the end of a history: per stream (live, consumers ever attached, consumers whose Close
+   has been called) ---------- *)
+Definition end_vec (l : list strm) : list (bool * Z * Z) :=
+  map (fun s => (st_live s, st_att_total s, released s)) l.
+
+Fixpoint zs_eqb (a b : list Z) : bool :=
+  match a, b with
+  | [], [] => true
+  | x :: a', y :: b' => (x =? y) && zs_eqb a' b'
+  | _, _ => false
+  end.
+Fixpoint end_eqb (a b : list (bool * Z * Z)) : bool :=
+  match a, b with
+  | [], [] => true
+  | (l1, t1, c1) :: a', (l2, t2, c2) :: b' => Bool.eqb l1 l2 && (t1 =? t2) && (c1 =? c2) && end_eqb a' b'
+  | _, _ => false
+  end.
+
+(* C05's oracle on the whole observation: the answers and the end vector are the specification's *)
+Definition ok_hist_end_C05 (ops : list gop) (outs : list gout) (endv : list (bool * Z * Z)) : bool :=
+  ok_hist_C05 ops outs && end_eqb endv (end_vec (sp_streams (sexec sinit ops))).
+
+(* C03's oracle on a registry history: for every stream the number of Consumer.Close calls observed
+   at the end is [released] of that stream in the specification's end state — every consumer of a
+   stream that has ended (closed, unregistered, replaced without consumers, idle-closed, shut down)
+   has been closed, and of a live stream exactly the detached ones *)
+Definition ok_reg_end_C03 (ops : list gop) (endv : list (bool * Z * Z)) : bool :=
+  zs_eqb (map snd endv) (map released (sp_streams (sexec sinit ops))).
